@@ -287,8 +287,12 @@ func cmdCheck(args []string) {
 	baseName := func(n string) string {
 		if i := strings.LastIndex(n, ":"); i > 0 {
 			if _, err := strconv.Atoi(n[i+1:]); err == nil {
-				return n[:i]
+				n = n[:i]
 			}
+		}
+		// the path of inlined callees (@a>b) changes when a helper is extracted or inlined
+		if i := strings.Index(n, "@"); i > 0 {
+			n = n[:i]
 		}
 		return n
 	}
@@ -417,7 +421,7 @@ func cmdCheck(args []string) {
 					undecided = append(undecided, o.Name+" ("+o.Status+")")
 					continue
 				}
-				if !isClaimed && !unclaimed[o.Name] {
+				if !unclaimed[o.Name] {
 					if l := takeListed(o.Name); l != "" && unclaimed[l] {
 						undecided = append(undecided, o.Name+" ("+o.Status+"; listed as "+l+", renumbered)")
 						continue
